@@ -64,6 +64,23 @@ def run(ctx):
                 if i % 10 == 4:
                     cfg["W"] = 1
             cfgs.append(cfg)
+        # array-valued hyper-parameters LARGE enough to leave every "small array" path (more entries than NumPy's print
+        # threshold of 1000: summaries, elided reprs, chunked copies): a per-pair switching-cost vector for 1100+ windows
+        # and a 32 x 32 penalty matrix; with and without a listener on the DEBUG diagnostics
+        for j in range(2 if ctx.quick() else 8):
+            big = tu.gen_config(ctx.rng, joint=(j % 4 == 3))
+            for k_ in ("dtype", "completion", "flat"):
+                big.pop(k_, None)
+            if j % 2 == 0:
+                big.update({"N": 1, "W": 2, "K": 2, "limit": 1, "vector_beta": True, "matrix_lambda": False, "regimes": 2,
+                            "lens": [1 + ctx.rng.randint(1101, 1300)] if not big["joint"] else [1 + 700, 1 + 450]})
+            else:
+                big.update({"N": 2, "W": 16, "K": 2, "limit": 1, "vector_beta": False, "matrix_lambda": True, "regimes": 2,
+                            "lens": [15 + ctx.rng.randint(150, 200)] if not big["joint"] else [15 + 90, 15 + 80]})
+            big.update({"readonly": j % 4 >= 2, "fortran": False, "fail": None, "eps": 0, "big_arguments": True})
+            if j % 4 in (1, 2):
+                big["logging"] = "DEBUG"
+            cfgs.append(big)
 
     for cfg in cfgs:
         series = tu.config_data(cfg)
@@ -76,10 +93,17 @@ def run(ctx):
         n = cfg["N"] * cfg["W"]
         npts = sum(s.shape[0] - cfg["W"] + 1 for s in series)
         kw = tu.config_kwargs(cfg)
+        rs_a = np.random.RandomState((cfg["seed"] + 19) % 2 ** 31)
         if cfg.get("matrix_lambda"):
-            kw["sparsity_weight"] = prep(np.full((n, n), 0.25), cfg.get("readonly"), cfg.get("fortran"))
+            # a penalty matrix with distinct entries in no particular order (a constant one survives being sorted,
+            # transposed or partitioned in place)
+            L_ = np.round(rs_a.uniform(0.05, 0.6, size=(n, n)) * 64) / 64
+            kw["sparsity_weight"] = prep((L_ + L_.T) / 2, cfg.get("readonly"), cfg.get("fortran"))
         if cfg.get("vector_beta"):
-            kw["label_switching_cost"] = prep(np.full(npts, 3.0), cfg.get("readonly"), False)
+            # per-pair costs with distinct values and zeros (series boundaries / "free" switches) in no particular order
+            b_ = np.round(rs_a.uniform(0.5, 12, size=npts) * 4) / 4
+            b_[rs_a.rand(npts) < 0.1] = 0.0
+            kw["label_switching_cost"] = prep(b_, cfg.get("readonly"), False)
         kw["min_meaningful_covariance"] = cfg.get("eps", 0)
         data_arg = list(series) if cfg["joint"] else series[0]
         fail = cfg.get("fail")
@@ -122,7 +146,7 @@ def run(ctx):
             for p in patches:
                 st.enter_context(p)
             try:
-                with tu.inline_pool(), tu.quiet():
+                with tu.inline_pool(), tu.quiet(), tu.ambient(cfg):
                     if (cfg["joint"] and fail != "wrong-front-end") or (not cfg["joint"] and fail == "wrong-front-end"):
                         fast_ticc.ticc_joint_labels(data_arg, **kw)
                     else:
@@ -139,7 +163,7 @@ def run(ctx):
         ctx.count("calls_raised" if err is not None else "calls_returned")
         if err is not None:
             ctx.count("raised:" + type(err).__name__)
-        for k in ("readonly", "fortran", "matrix_lambda", "vector_beta", "nan_data"):
+        for k in ("readonly", "fortran", "matrix_lambda", "vector_beta", "nan_data", "big_arguments", "logging"):
             if cfg.get(k):
                 ctx.count(k)
         ctx.case(("cfg", repr(sorted((k, repr(v)) for k, v in cfg.items()))),
@@ -155,8 +179,10 @@ def run(ctx):
         for rep in range(4 if ctx.quick() else 40):
             cfg = tu.gen_config(ctx.rng, joint=(rep % 4 == 3))
             cfg.update({"limit": 2, "sequence": True, "readonly": rep % 2 == 1})
-            for k_ in ("dtype", "completion", "flat"):
+            for k_ in ("dtype", "completion", "flat", "logging"):
                 cfg.pop(k_, None)
+            if rep % 4 in (1, 2):
+                cfg["logging"] = "DEBUG"
             if ctx.replay is not None:
                 cfg = ctx.replay
             base = tu.config_data(cfg)
@@ -178,7 +204,7 @@ def run(ctx):
                 err = None
                 try:
                     tu.seed_all(cfg["seed"])
-                    with tu.inline_pool(), tu.quiet(), warnings.catch_warnings():
+                    with tu.inline_pool(), tu.quiet(), tu.ambient(cfg), warnings.catch_warnings():
                         warnings.simplefilter("ignore")
                         (fast_ticc.ticc_joint_labels if cfg["joint"] else fast_ticc.ticc_labels)(data_arg, **kw)
                 except Exception as e:
